@@ -335,7 +335,8 @@ def c08d(chk):
         # the closure passed to ReadStatus::map maps every item through From::from
         ok = False
         why = "closure not recognised"
-        for c in prog.closures_of(path):
+        # (the mapping may sit in the closure handed to ReadStatus::map, or in the method itself when the status is matched by hand)
+        for c in prog.closures_of(path) + [f]:
             chk.fns_analysed.add(c.path)
             maps = an.calls(c, N.MAP)
             for b, t in maps:
@@ -1115,8 +1116,13 @@ def c12d(chk):
                "the (compression x format) arms construct only bcf::Reader::new / vcf::Reader::new (found %s)" % kinds)
         # every Reader::new result is boxed and `?`-propagated; detect() results `?`-propagated
         det = an.calls(g, "sfs_core::input::genotype::reader::builder::CompressionMethod::detect") + an.calls(g, "sfs_core::input::genotype::reader::builder::Format::detect")
-        ok = len(det) == 2 and all(an.try_branch_of(g, b) is not None for b, t in det)
-        chk.ob("C12.d", "build_from_reader/detection-errors-propagate", ok, g.loc(), "compression/format detection results go through `?`")
+        # (a detector that cannot fail any more - it is handed the buffered bytes and returns a plain value - has nothing to propagate;
+        # the fallible step is then the fill_buf() in this function, which must go through `?`)
+        def fallible(t_):
+            return (t_.get("dest_ty") or "").startswith("core::result::Result<")
+        fb = an.calls(g, "std::io::BufRead::fill_buf")
+        ok = len(det) == 2 and all(an.try_branch_of(g, b) is not None for b, t in det if fallible(t)) and all(an.try_branch_of(g, b) is not None for b, t in fb)
+        chk.ob("C12.d", "build_from_reader/detection-errors-propagate", ok, g.loc(), "compression/format detection results (and the reads feeding them) go through `?`")
         # explicit settings bypass detection symmetrically: detect is called only on the None edge of the corresponding option
         for b, t in det:
             nm = callee_name(t["callee"]).split("::")[-2]
